@@ -1,11 +1,14 @@
 #!/bin/sh
-# Offline setup: warm the Go build cache for the harness (workers are rebuilt by ./run anyway).
+# Offline setup: warm the Go build cache for the harness (workers are rebuilt by ./run anyway,
+# from /repo's current tree). A worker that does not build is reported by its own check.
 HERE=$(cd "$(dirname "$0")" && pwd)
 export GOFLAGS=-mod=mod GOPROXY=off GOSUMDB=off GOTOOLCHAIN=local
 cd "$HERE/harness" || exit 1
 mkdir -p "$HERE/bin" "$HERE/evidence"
-go build -tags verif ./... || exit 1
+go build -tags verif ./internal/... || exit 1
 for d in props/*/; do
-  if [ -f "$d/RACE" ]; then go build -race -tags verif -o /dev/null "./$d" || exit 1; fi
+  RACE=""
+  if [ -f "$d/RACE" ]; then RACE="-race"; fi
+  go build $RACE -tags verif -o /dev/null "./$d" || echo "setup: $d does not build yet"
 done
 exit 0
